@@ -41,7 +41,7 @@ META = {
 THEOREMS = [
     "R_neg_transpose", "R_add", "R_det_one", "R_orthogonal", "dR_is_derivative",
     "enu2trs_as_R3R1", "trs2enu_as_R1R3", "trs2enu_transpose", "enu_rotation", "enu_preserves", "enu_roundtrip",
-    "up_is_normal", "normal_is_ellipsoid_gradient", "height_along_normal", "east_perp_axis_up", "north_completes_rh",
+    "up_is_normal", "normal_is_ellipsoid_gradient", "foot_of_normal", "height_along_normal", "east_perp_axis_up", "north_completes_rh",
     "acr_orthonormal_rh", "acr_axes", "az_el_are_angles_in_triad", "posvel_block_roundtrip",
     "model_exprs_ok", "check_all_sound", "check_rot_sound", "check_enu_sound", "check_delta_sound", "acr_1d_transposed_refuted",
 ]
@@ -167,7 +167,7 @@ def run(ctx):
     fam = {
         "rot": Cases("check_rot", 150), "group": Cases("check_group", 300), "negT": Cases("check_negT", 400),
         "enu": Cases("check_enu", 150), "delta": Cases("check_delta", 120), "rt": Cases("check_roundtrip", 400),
-        "triad": Cases("check_triad", 400), "acrm": Cases("check_acr_mat", 40), "acrd": Cases("check_acr_delta", 40),
+        "triad": Cases("check_triad", 400), "normal": Cases("check_normal", 80), "acrm": Cases("check_acr_mat", 40), "acrd": Cases("check_acr_delta", 40),
         "azel": Cases("check_azel", 60),
     }
     other_mism = []
@@ -245,15 +245,33 @@ def run(ctx):
                 ctx.case(("enu", to_trs, float(la), float(lo), form), nontrivial=True, sample=rep if i == 30 and to_trs else None)
                 ctx.count(f"enu:{name.split('.')[1]}:{form}:{'pole' if abs(abs(la) - PI / 2) < 1e-9 else 'general'}")
 
-    # ---- C. difference vectors through the data API, shapes (3,), (1,3), (n,3)
-    n_ref = 45 if q else 550
-    for _ in range(n_ref):
-        shape = rng.choice(["(3,)", "(1,3)", "(n,3)", "(n,3)"])
-        n = 1 if shape != "(n,3)" else rng.randrange(2, 6)
-        refs = np.array([gen_ref_trs(rng) for _ in range(n)])
-        ds = np.array([gen_delta(rng) for _ in range(n)])
+    # ---- C. reference positions in every system (trs, llh) on every ellipsoid; the triad against the ellipsoid normal at the
+    #         position (independent of midgard's latitude/longitude); difference vectors, shapes (3,), (1,3), (n,3)
+    from midgard.math import ellipsoid as ELL
+    ELLS = [ELL.GRS80, ELL.sphere, ELL.WGS72, ELL.WGS84, ELL.IERS2003, ELL.IERS2010, ELL.DORIS]
+
+    def gen_ell():
+        return ELL.GRS80 if rng.random() < 0.3 else rng.choice(ELLS)
+
+    def gen_llh():
+        lat, lon = gen_latlon(rng)
+        h = rng.choice([0.0, 100.0, -1e4, 8848.0, 2e7, 4e7]) if rng.random() < 0.5 else rng.uniform(-1e4, 1e5)
+        return np.array([lat, lon, h])
+
+    def normal_case(ell, x, e, n_, u, base, how):
+        rep = dict(base, kind="normal", ellipsoid=ell.name, a=float(ell.a), e2=float(ell.e2), trs=fl(x), east=fl(e), north=fl(n_), up=fl(u),
+                   how=how + " (.enu_east/.enu_north/.enu_up against the ellipsoid normal at the position)")
+        fam["normal"].add(emit.pair(emit.dy(ell.a), emit.dy(ell.e2), dys(x), dys(e), dys(n_), dys(u)), rep)
+        ctx.case(("normal", ell.name, fl(x), how), nontrivial=True, sample=rep if ell.name == "WGS72" and len(fam["normal"].terms) % 50 == 0 else None)
+        ctx.count(f"normal:{ell.name}")
+
+    def do_refs(shape, system, ell, rows, tag):
+        """rows: (n,3) coordinates in `system`; runs matrices, triad, normal, deltas, round trips, PosVel frame, in-place history"""
+        n = len(rows)
         mk = (lambda a: fresh(a[0])) if shape == "(3,)" else (lambda a: fresh(a))
-        ref = Position(mk(refs), system="trs")
+        ref = Position(mk(rows), system=system, ellipsoid=ell)
+        refs = out(ref.trs.val).reshape(-1, 3)
+        ds = np.array([gen_delta(rng) for _ in range(n)])
         llh = out(ref.llh.val).reshape(-1, 3)
         e2t = out(ref.enu2trs).reshape(-1, 3, 3)
         t2e = out(ref.trs2enu).reshape(-1, 3, 3)
@@ -264,37 +282,81 @@ def run(ctx):
         d_enu = PositionDelta(mk(ds), system="enu", ref_pos=ref)
         trs = out(d_enu.trs.val).reshape(-1, 3)
         back2 = out(d_enu.trs.enu.val).reshape(-1, 3)
-        # position/velocity differences: 6x6 block action
+        # position/velocity reference on the same ellipsoid: its frame is the frame of its position part
         vel = np.array([gen_delta(rng) * 1e-3 for _ in range(n)])
-        pv_ref = PosVel(mk(np.hstack([refs, np.array([gen_unit(rng) * 3e3 for _ in range(n)])])), system="trs")
+        pv_ref = PosVel(mk(np.hstack([refs, np.array([gen_unit(rng) * 3e3 for _ in range(n)])])), system="trs", ellipsoid=ell)
+        pv_e, pv_n, pv_u = (out(x).reshape(-1, 3) for x in (pv_ref.enu_east, pv_ref.enu_north, pv_ref.enu_up))
         pvd = PosVelDelta(mk(np.hstack([ds, vel])), system="trs", ref_pos=pv_ref)
         pv_enu = out(pvd.enu.val).reshape(-1, 6)
         pv_back = out(pvd.enu.trs.val).reshape(-1, 6)
         ctx.count(f"delta:shape:{shape}")
+        ctx.count(f"ref:system:{system}")
         for i in range(n):
             la, lo = llh[i, 0], llh[i, 1]
-            base = dict(ref_trs=fl(refs[i]), lat=float(la), lon=float(lo), shape=shape, row=i)
+            base = dict(ref=fl(rows[i]), ref_system=system, ref_trs=fl(refs[i]), ellipsoid=ell.name, lat=float(la), lon=float(lo), shape=shape, row=i, tag=tag)
             ctx.count("delta:ref:" + ("pole" if abs(abs(la) - PI / 2) < 1e-9 else "south" if la < 0 else "north"))
             ctx.count("delta:mag:" + ("zero" if not ds[i].any() else f"1e{int(math.floor(math.log10(np.linalg.norm(ds[i]))))}"))
             fam["enu"].add(emit.pair(emit.b(True), emit.dy(la), emit.dy(lo), dys(e2t[i])),
-                           dict(base, kind="enu", fn="Position.enu2trs", observed=fl(e2t[i]), how="Position(ref_trs, system='trs').enu2trs"))
+                           dict(base, kind="enu", fn="Position.enu2trs", observed=fl(e2t[i]), how=f"Position(ref, system={system!r}, ellipsoid={ell.name}).enu2trs"))
             fam["enu"].add(emit.pair(emit.b(False), emit.dy(la), emit.dy(lo), dys(t2e[i])),
-                           dict(base, kind="enu", fn="Position.trs2enu", observed=fl(t2e[i]), how="Position(ref_trs, system='trs').trs2enu"))
+                           dict(base, kind="enu", fn="Position.trs2enu", observed=fl(t2e[i]), how=f"Position(ref, system={system!r}, ellipsoid={ell.name}).trs2enu"))
             fam["triad"].add(emit.pair(dys(e2t[i]), dys(east[i]), dys(north[i]), dys(up[i])),
                              dict(base, kind="triad", enu2trs=fl(e2t[i]), east=fl(east[i]), north=fl(north[i]), up=fl(up[i]),
                                   how="Position.enu_east/north/up vs columns of Position.enu2trs"))
+            normal_case(ell, refs[i], east[i], north[i], up[i], base, f"Position(ref, system={system!r}, ellipsoid={ell.name})")
+            normal_case(ell, refs[i], pv_e[i], pv_n[i], pv_u[i], base, f"PosVel([ref_trs, v], system='trs', ellipsoid={ell.name})")
             for to_trs, dd, oo, how in ((False, ds[i], enu[i], "PositionDelta(d, 'trs', ref_pos=ref).enu"),
                                         (True, ds[i], trs[i], "PositionDelta(d, 'enu', ref_pos=ref).trs"),
                                         (False, ds[i], pv_enu[i, :3], "PosVelDelta(dv, 'trs', ref_pos=pv).enu [pos]"),
                                         (False, vel[i], pv_enu[i, 3:], "PosVelDelta(dv, 'trs', ref_pos=pv).enu [vel]")):
                 rep = dict(base, kind="delta", to_trs=to_trs, d=fl(dd), observed=fl(oo), how=how)
                 fam["delta"].add(emit.pair(emit.b(to_trs), emit.dy(la), emit.dy(lo), dys(dd), dys(oo)), rep)
-                ctx.case(("delta", to_trs, fl(refs[i]), fl(dd)), nontrivial=bool(dd.any()), sample=rep if shape == "(n,3)" and i == 1 else None)
+                ctx.case(("delta", to_trs, system, ell.name, fl(refs[i]), fl(dd)), nontrivial=bool(dd.any()), sample=rep if shape == "(n,3)" and i == 1 and tag == "random" else None)
             for dd, bb, how in ((ds[i], back[i], ".enu.trs"), (ds[i], back2[i], ".trs.enu"),
-                                (np.hstack([ds[i], vel[i]])[:3], pv_back[i, :3], "posvel .enu.trs [pos]"),
-                                (vel[i], pv_back[i, 3:], "posvel .enu.trs [vel]")):
+                                (ds[i], pv_back[i, :3], "posvel .enu.trs [pos]"), (vel[i], pv_back[i, 3:], "posvel .enu.trs [vel]")):
                 fam["rt"].add(emit.pair(dys(dd), dys(bb)), dict(base, kind="roundtrip", d=fl(dd), back=fl(bb), how=how))
                 ctx.case(("rt", fl(refs[i]), fl(dd), how), nontrivial=bool(np.any(dd)))
+        # history: read the frame (done above), move the position in place, read it again
+        if system == "trs" and (tag == "corpus" or rng.random() < 0.4):
+            j = rng.randrange(n)
+            new = gen_ref_trs(rng) if rng.random() < 0.7 else np.array([0.0, 0.0, -6356752.3141])
+            if shape == "(3,)":
+                ref[:] = fresh(new)
+            elif n == 1:
+                ref[:] = fresh([new])
+            else:
+                ref[j] = fresh(new)
+            refs2 = out(ref.trs.val).reshape(-1, 3)
+            e2t2 = out(ref.enu2trs).reshape(-1, 3, 3)
+            east2, north2, up2 = (out(x).reshape(-1, 3) for x in (ref.enu_east, ref.enu_north, ref.enu_up))
+            ctx.count("history:setitem")
+            for i in range(n):
+                base = dict(ref_trs=fl(refs2[i]), ellipsoid=ell.name, shape=shape, row=i, moved_row=j, tag=tag,
+                            history="read frame; ref[row] = new position (in place); read frame again")
+                fam["triad"].add(emit.pair(dys(e2t2[i]), dys(east2[i]), dys(north2[i]), dys(up2[i])),
+                                 dict(base, kind="triad", enu2trs=fl(e2t2[i]), east=fl(east2[i]), north=fl(north2[i]), up=fl(up2[i]),
+                                      how="after in-place move: enu_east/north/up vs columns of enu2trs"))
+                normal_case(ell, refs2[i], east2[i], north2[i], up2[i], base, "Position after in-place __setitem__")
+
+    SP = [0.0, 0.0, -6356752.3141]
+    corpus_rows = [("(3,)", [SP]), ("(1,3)", [SP]),
+                   ("(n,3)", [[3771793.968, 140253.342, 5124304.349], SP, [0.0, 0.0, 6356752.3141], [4e-10, -3e-10, -6.4e6], [0.0, 0.0, -7e6]]),
+                   ("(3,)", [[4e-10, -3e-10, -6356752.0]]), ("(3,)", [[0.0, 0.0, 6356752.3141]])]
+    for ell in (ELL.GRS80, ELL.WGS72):
+        for shape, rows in corpus_rows:
+            do_refs(shape, "trs", ell, np.array(rows, dtype=float), "corpus")
+    do_refs("(n,3)", "llh", ELL.WGS72, np.array([[-PI / 2, 0.0, 0.0], [PI / 2, 1.0, 100.0], [-0.8, 2.0, 50.0]]), "corpus")
+    n_ref = 40 if q else 500
+    for _ in range(n_ref):
+        shape = rng.choice(["(3,)", "(1,3)", "(n,3)", "(n,3)"])
+        n = 1 if shape != "(n,3)" else rng.randrange(2, 6)
+        system = rng.choice(["trs", "llh"])
+        ell = gen_ell()
+        if system == "llh":
+            rows = np.array([gen_llh() for _ in range(n)])
+        else:
+            rows = np.array([gen_ref_trs(rng) if rng.random() < 0.5 else out(Position(gen_llh(), system="llh", ellipsoid=ell).trs.val) for _ in range(n)])
+        do_refs(shape, system, ell, rows, "random")
 
     # ---- D. along / cross / radial
     n_orb = 30 if q else 320
@@ -331,28 +393,41 @@ def run(ctx):
                 fam["rt"].add(emit.pair(dys(dd), dys(bb)), dict(base, kind="roundtrip", d=fl(dd), back=fl(bb), how="posvel .acr.trs"))
                 ctx.case(("rt-acr", fl(states[i]), fl(dd)), nontrivial=bool(dd.any()))
 
-    # ---- E. azimuth / elevation / zenith distance
-    n_az = 80 if q else 650
+    # ---- E. azimuth / elevation / zenith distance; reference and target stored in either system, any ellipsoid
+    n_az = 70 if q else 600
     for _ in range(n_az):
         shape = rng.choice(["(3,)", "(n,3)"])
         n = 1 if shape == "(3,)" else rng.randrange(2, 5)
-        refs = np.array([gen_ref_trs(rng) for _ in range(n)])
+        ell = gen_ell()
+        rsys, osys = rng.choice(["trs", "llh"]), rng.choice(["trs", "llh"])
+        if rsys == "llh":
+            rrows = np.array([gen_llh() for _ in range(n)])
+        else:
+            rrows = np.array([gen_ref_trs(rng) for _ in range(n)])
         others = []
         for i in range(n):
-            p = Position(fresh(refs[i]), system="trs")
+            p = Position(fresh(rrows[i]), system=rsys, ellipsoid=ell)
             m = out(p.enu2trs).reshape(3, 3)   # (1,3,3) when trs2llh's cache was filled by a (1,3) call with the same bytes (C08)
             u = rng.random()
             el = rng.choice([PI / 2, -PI / 2, 0.0, 1.5, 1.5707, -1.0]) if u < 0.3 else math.asin(rng.uniform(-1, 1))
             az = rng.choice([0.0, PI, -PI, PI / 2, -PI / 2, math.nextafter(PI, 0)]) if rng.random() < 0.3 else rng.uniform(-PI, PI)
             dist = 10 ** rng.uniform(0, 7.6)
             enu_vec = dist * np.array([math.cos(el) * math.sin(az), math.cos(el) * math.cos(az), math.sin(el)])
-            others.append(refs[i] + m @ enu_vec)
+            others.append(out(p.trs.val).reshape(3) + m @ enu_vec)
             ctx.count("azel:" + ("zenith/nadir" if abs(abs(el) - PI / 2) < 1e-3 else "south-cut" if abs(abs(az) - PI) < 1e-6 else "general"))
         others = np.array(others)
         mk = (lambda a: fresh(a[0])) if shape == "(3,)" else (lambda a: fresh(a))
-        oth = Position(mk(others), system="trs")
-        ref = Position(mk(refs), system="trs", other=oth)
+        if osys == "llh":
+            orows = out(Position(fresh(others), system="trs", ellipsoid=ell).llh.val).reshape(-1, 3)
+        else:
+            orows = others
+        oth = Position(mk(orows), system=osys, ellipsoid=ell)
+        ref = Position(mk(rrows), system=rsys, ellipsoid=ell, other=oth)
+        ctx.count(f"azel:systems:{rsys}->{osys}")
+        refs = out(ref.trs.val).reshape(-1, 3)
+        oths = out(oth.trs.val).reshape(-1, 3)
         llh = out(ref.llh.val).reshape(-1, 3)
+        east, north, up = (out(x).reshape(-1, 3) for x in (ref.enu_east, ref.enu_north, ref.enu_up))
         az_o = out(ref.azimuth).reshape(-1)
         el_o = out(ref.elevation).reshape(-1)
         zd_o = out(ref.zenith_distance).reshape(-1)
@@ -360,13 +435,16 @@ def run(ctx):
         el2 = out(ref.elevation_to(oth)).reshape(-1)
         zd2 = out(ref.zenith_distance_to(oth)).reshape(-1)
         for i in range(n):
+            base = dict(ref=fl(rrows[i]), ref_system=rsys, other=fl(orows[i]), other_system=osys, ellipsoid=ell.name,
+                        ref_trs=fl(refs[i]), other_trs=fl(oths[i]), lat=float(llh[i, 0]), lon=float(llh[i, 1]), shape=shape, row=i)
+            normal_case(ell, refs[i], east[i], north[i], up[i], base, f"Position(ref, system={rsys!r}, ellipsoid={ell.name}) [azel reference]")
             for form, (a_, e_, z_) in (("property", (az_o[i], el_o[i], zd_o[i])), ("_to", (az2[i], el2[i], zd2[i]))):
-                rep = dict(kind="azel", ref_trs=fl(refs[i]), other_trs=fl(others[i]), lat=float(llh[i, 0]), lon=float(llh[i, 1]),
-                           shape=shape, row=i, form=form, observed=dict(azimuth=float(a_), elevation=float(e_), zenith_distance=float(z_)),
-                           how="Position(ref, system='trs', other=Position(other, system='trs')).azimuth/.elevation/.zenith_distance")
-                fam["azel"].add(emit.pair(emit.dy(llh[i, 0]), emit.dy(llh[i, 1]), dys(refs[i]), dys(others[i]),
+                rep = dict(base, kind="azel", form=form, observed=dict(azimuth=float(a_), elevation=float(e_), zenith_distance=float(z_)),
+                           how=f"Position(ref, system={rsys!r}, ellipsoid={ell.name}, other=Position(other, system={osys!r}, ...))"
+                               + (".azimuth/.elevation/.zenith_distance" if form == "property" else ".azimuth_to/.elevation_to/.zenith_distance_to(other)"))
+                fam["azel"].add(emit.pair(emit.dy(llh[i, 0]), emit.dy(llh[i, 1]), dys(refs[i]), dys(oths[i]),
                                           emit.dy(a_), emit.dy(e_), emit.dy(z_)), rep)
-                ctx.case(("azel", fl(refs[i]), fl(others[i])), nontrivial=True, sample=rep if i == 0 and form == "property" and shape == "(n,3)" else None)
+                ctx.case(("azel", rsys, osys, fl(refs[i]), fl(oths[i]), form), nontrivial=True, sample=rep if i == 0 and form == "property" and shape == "(n,3)" else None)
 
     # ---------------------------------------------------------------- evaluate inside Coq and decide
     names = list(fam)
